@@ -448,6 +448,9 @@ impl World {
             let mut b = TransactionBuilder::create(Witness::from(self.contract_code.clone()), salt, vec![]);
             b.with_params(self.params.clone());
             b.max_fee_limit(mf);
+            // a create carries no script data to tag: keep two descriptors from building the same transaction
+            let tag: u64 = s(d, "id").bytes().fold(0u64, |a, c| a.wrapping_mul(131).wrapping_add(c as u64)) % 100_000;
+            b.witness_limit(1_000_000 + tag);
             if d["exp"].as_i64().unwrap_or(-1) >= 0 {
                 b.expiration(BlockHeight::new(d["exp"].as_i64().unwrap() as u32));
             }
